@@ -1211,6 +1211,17 @@ class AbsInt:
                         nav = self._navigate(env, key)
                         if nav is not None:
                             dflt = nav
+                        else:
+                            # a borrow of a part of an opaque value (`&(_35 as Ok).0` of a call's result, bound by reference in a
+                            # match guard): the same projection a direct read of that part gives
+                            toks = re.findall(r'(^_\d+|@\w+|\.f\d+)', key)
+                            if toks and ''.join(toks) == key and len(toks) >= 2 and toks[0] in env and all(k_ not in env for k_ in
+                                    (''.join(toks[:i_]) for i_ in range(2, len(toks) + 1))):
+                                pv = env[toks[0]]
+                                if isinstance(pv, tuple) and pv and pv[0] != 'agg':
+                                    for tk in toks[1:]:
+                                        pv = ('downcast', pv, tk[1:]) if tk.startswith('@') else ('field', pv, tk[2:])
+                                    dflt = pv
                     val = env.get(key, dflt)
                     continue
                 key = key + '.*'
@@ -1768,6 +1779,14 @@ class AbsInt:
                             res = a0
                 if res is None:
                     res = self.fold_table_call(env, name, argvals)
+                if res is None and name.endswith(('Option::<T>::unwrap_or_else', 'Option::<T>::map_or_else')) and len(argvals) >= 2 and argvals[0][0] == 'agg' \
+                        and argvals[0][1] == 'core::option::Option' and name.endswith('unwrap_or_else'):
+                    # Some(x).unwrap_or_else(f) is x; None.unwrap_or_else(Object::null) is Object::null()
+                    if argvals[0][2] == 'Some' and argvals[0][3]:
+                        res = argvals[0][3][0]
+                    elif argvals[0][2] == 'None' and argvals[1][0] == 'fn':
+                        res = ('call', argvals[1][1], (), b)
+                        path.calls.append((b, argvals[1][1], (), dkey, dict(t, callee={'path': argvals[1][1], 'resolved': argvals[1][1], 'via': name}, args=[])))
                 if res is None and name.endswith('Try>::branch') and argvals and argvals[0][0] == 'agg' and \
                         argvals[0][1] in ('core::result::Result', 'core::option::Option') and argvals[0][2] in ('Ok', 'Err', 'Some', 'None'):
                     a0 = argvals[0]
